@@ -366,6 +366,164 @@ theorem refParse_ne_panic (fin : Bool) (args : List Str) (acc : Acc) (site : Sit
     refParse fin args acc ≠ .panic site := by
   fun_induction refParse fin args acc <;> simp_all [dupFrom, dupTo]
 
+/-! ### The first decisive token wins -/
+
+/-- One turn of the reference reading, for an argument of any shape. -/
+theorem refParse_cons (fin : Bool) (a : Str) (rest : List Str) (acc : Acc) :
+    refParse fin (a :: rest) acc =
+    if fin then refParse true rest { acc with paths := acc.paths ++ [a] }
+    else if a = ['-', '-'] then refParse true rest acc
+    else if startsWithDashDash a then
+      (if (splitEq a).1.drop 2 = "version".toList then .version
+      else if (splitEq a).1.drop 2 = "help".toList then .longHelp
+      else .err (.unexpectedOption ('-' :: '-' :: (splitEq a).1.drop 2)))
+    else
+      match a, rest with
+      | '-' :: c :: tail, rest =>
+        if c = 'f' then
+          if acc.from.isSome then .err dupFrom
+          else
+            match tail, rest with
+            | [], [] => .err (.missingValue (some ['-', 'f']))
+            | [], v :: rest' =>
+              match tryParseFormat v with
+              | none => .err (.parsingFailed v notAFormat)
+              | some f => refParse false rest' { acc with «from» := some f }
+            | t :: tail', rest =>
+              match tryParseFormat (attachedValue (t :: tail')) with
+              | none => .err (.parsingFailed (attachedValue (t :: tail')) notAFormat)
+              | some f => refParse false rest { acc with «from» := some f }
+        else if c = 't' then
+          if acc.to.isSome then .err dupTo
+          else
+            match tail, rest with
+            | [], [] => .err (.missingValue (some ['-', 't']))
+            | [], v :: rest' =>
+              match tryParseFormat v with
+              | none => .err (.parsingFailed v notAFormat)
+              | some f => refParse false rest' { acc with to := some f }
+            | t :: tail', rest =>
+              match tryParseFormat (attachedValue (t :: tail')) with
+              | none => .err (.parsingFailed (attachedValue (t :: tail')) notAFormat)
+              | some f => refParse false rest { acc with to := some f }
+        else if c = 'V' then .version
+        else if c = 'h' then .shortHelp
+        else .err (.unexpectedOption ['-', c])
+      | a, rest => refParse false rest { acc with paths := acc.paths ++ [a] } := by
+  rw [refParse.eq_def]
+
+
+/-- A result of reading a prefix of the command line that later arguments
+cannot change: a help/version request, or an argument error other than a
+value still missing at the end. -/
+def Decisive : Parsed → Prop
+  | .version | .shortHelp | .longHelp => True
+  | .err (.missingValue _) => False
+  | .err _ => True
+  | _ => False
+
+theorem refParse_prefix (suf : List Str) : ∀ (fin : Bool) (pre : List Str) (acc : Acc), Decisive (refParse fin pre acc) →
+      refParse fin (pre ++ suf) acc = refParse fin pre acc := by
+  intro fin pre acc
+  fun_induction refParse fin pre acc <;> intro hd
+  case case1 => simp [Decisive] at hd
+  case case2 => simp [Decisive] at hd
+  case case3 a rest acc ih =>
+    simp only [List.cons_append]; rw [refParse_cons]; simp only [if_true]; exact ih hd
+  case case4 fin rest acc hfin ih =>
+    have hff : fin = false := by simpa using hfin
+    subst hff
+    simp only [List.cons_append]; rw [refParse_cons]
+    simp only [Bool.false_eq_true, if_false, if_true]; exact ih hd
+  case case5 fin a rest acc hfin h1 h2 name hv =>
+    have hff : fin = false := by simpa using hfin
+    subst hff
+    simp only [List.cons_append]; rw [refParse_cons]
+    simp only [Bool.false_eq_true, if_false, h1, h2, if_true]; rw [if_pos hv]
+  case case6 fin a rest acc hfin h1 h2 name hv hh =>
+    have hff : fin = false := by simpa using hfin
+    subst hff
+    simp only [List.cons_append]; rw [refParse_cons]
+    simp only [Bool.false_eq_true, if_false, h1, h2, if_true]; rw [if_neg hv, if_pos hh]
+  case case7 fin a rest acc hfin h1 h2 name hv hh =>
+    have hff : fin = false := by simpa using hfin
+    subst hff
+    simp only [List.cons_append]; rw [refParse_cons]
+    simp only [Bool.false_eq_true, if_false, h1, h2, if_true]; rw [if_neg hv, if_neg hh]
+  case case8 fin acc hfin tail rest hs h1 h2 =>
+    have hff : fin = false := by simpa using hfin
+    subst hff
+    simp only [List.cons_append]; rw [refParse_cons]
+    simp [Bool.false_eq_true, if_false, h1, not_dashdash_of _ _ h2, if_true, hs]
+  case case9 => simp [Decisive] at hd
+  case case10 fin acc hfin hs v rest' hv h1 h2 =>
+    have hff : fin = false := by simpa using hfin
+    subst hff
+    simp only [List.cons_append]; rw [refParse_cons]
+    simp [Bool.false_eq_true, if_false, h1, not_dashdash_of _ _ h2, if_true, hs, hv]
+  case case11 fin acc hfin hs v rest' f hv h1 h2 ih =>
+    have hff : fin = false := by simpa using hfin
+    subst hff
+    simp only [List.cons_append]; rw [refParse_cons]
+    simp only [Bool.false_eq_true, if_false, h1, not_dashdash_of _ _ h2, if_true, hs, List.cons_append, hv]; exact ih hd
+  case case12 fin acc hfin hs t tail' rest hv h1 h2 =>
+    have hff : fin = false := by simpa using hfin
+    subst hff
+    simp only [List.cons_append]; rw [refParse_cons]
+    simp [Bool.false_eq_true, if_false, h1, not_dashdash_of _ _ h2, if_true, hs, hv]
+  case case13 fin acc hfin hs t tail' rest f hv h1 h2 ih =>
+    have hff : fin = false := by simpa using hfin
+    subst hff
+    simp only [List.cons_append]; rw [refParse_cons]
+    simp only [Bool.false_eq_true, if_false, h1, not_dashdash_of _ _ h2, if_true, hs, hv]; exact ih hd
+  case case14 fin acc hfin tail rest hs hnf h1 h2 =>
+    have hff : fin = false := by simpa using hfin
+    subst hff
+    simp only [List.cons_append]; rw [refParse_cons]
+    simp [Bool.false_eq_true, if_false, h1, not_dashdash_of _ _ h2, if_true, hs, hnf]
+  case case15 => simp [Decisive] at hd
+  case case16 fin acc hfin hs v rest' hv hnf h1 h2 =>
+    have hff : fin = false := by simpa using hfin
+    subst hff
+    simp only [List.cons_append]; rw [refParse_cons]
+    simp [Bool.false_eq_true, if_false, h1, not_dashdash_of _ _ h2, if_true, hs, hnf, hv]
+  case case17 fin acc hfin hs v rest' f hv hnf h1 h2 ih =>
+    have hff : fin = false := by simpa using hfin
+    subst hff
+    simp only [List.cons_append]; rw [refParse_cons]
+    simp only [Bool.false_eq_true, if_false, h1, not_dashdash_of _ _ h2, if_true, hs, hnf, List.cons_append, hv]; exact ih hd
+  case case18 fin acc hfin hs t tail' rest hv hnf h1 h2 =>
+    have hff : fin = false := by simpa using hfin
+    subst hff
+    simp only [List.cons_append]; rw [refParse_cons]
+    simp [Bool.false_eq_true, if_false, h1, not_dashdash_of _ _ h2, if_true, hs, hnf, hv]
+  case case19 fin acc hfin hs t tail' rest f hv hnf h1 h2 ih =>
+    have hff : fin = false := by simpa using hfin
+    subst hff
+    simp only [List.cons_append]; rw [refParse_cons]
+    simp only [Bool.false_eq_true, if_false, h1, not_dashdash_of _ _ h2, if_true, hs, hnf, hv]; exact ih hd
+  case case20 fin acc hfin tail rest hnf hnt h1 h2 =>
+    have hff : fin = false := by simpa using hfin
+    subst hff
+    simp only [List.cons_append]; rw [refParse_cons]
+    simp [h1, not_dashdash_of _ _ h2]
+  case case21 fin acc hfin tail rest hnf hnt hnV h1 h2 =>
+    have hff : fin = false := by simpa using hfin
+    subst hff
+    simp only [List.cons_append]; rw [refParse_cons]
+    simp [h1, not_dashdash_of _ _ h2]
+  case case22 fin acc hfin c tail rest hnf hnt hnV hnh h1 h2 =>
+    have hff : fin = false := by simpa using hfin
+    subst hff
+    simp only [List.cons_append]; rw [refParse_cons]
+    simp [h1, not_dashdash_of _ _ h2, hnf, hnt, hnV, hnh]
+  case case23 fin acc hfin a rest hx h1 h2 ih =>
+    have hff : fin = false := by simpa using hfin
+    subst hff
+    simp only [List.cons_append]; rw [refParse_cons]
+    simp only [Bool.false_eq_true, if_false, h1, h2]
+    exact ih hd
+
 /-- `parse_args` is the reference reading of the command line. -/
 theorem parseArgs_eq_ref (args : List Str) :
     parseArgs args = refParse false args { paths := [], «from» := none, to := none } :=
